@@ -36,7 +36,7 @@ RULE = ("One run = one live object of one of the ten classes in general position
         "get_dihedral, to_json, to_hoomd, repr/str, save and coxeter.io.to_* on the simulated "
         "filesystem), with malformed arguments, I/O faults inside exports, solver faults inside "
         "minimal_bounding_* and a different RNG seed for every repeat; half of the runs start "
-        "with a hand-out prefix (getters returning arrays) and 15% interleave mutators, after "
+        "with a hand-out prefix (getters returning arrays) and 25% interleave mutators, after "
         "which the reference snapshot starts afresh and handed-out arrays are re-frozen. Stratified prefix: run "
         "index i < sum(|alphabet(cls)|) fixes the first query (quick), i < sum(|alphabet|^2) the "
         "first ordered pair (thorough). After every step: observables (read from a deep copy) "
@@ -280,7 +280,7 @@ def gen_spec(seed, index, tier):
         for pos, k in enumerate(forced[1]):
             if pos < len(steps):
                 steps[pos] = _mk_step(ops, A[k], 0.1, cls)
-    if base is not None and ops.chance(0.15):
+    if base is not None and ops.chance(0.25):
         # queries on a shape with history: one to three mutators before / between queries;
         # after each one the reference snapshot and the hand-out registry start afresh
         try:
@@ -291,7 +291,7 @@ def gen_spec(seed, index, tier):
                 # read again, after the mutation, what was read before it: a getter that
                 # refills a buffer it handed out earlier only shows on the second read
                 earlier = [s for s in steps[:pos] if s["op"] == "get"]
-                for s in ops.sample(earlier, min(2, len(earlier))):
+                for s in ops.sample(earlier, min(3, len(earlier))):
                     again = dict(s, pyseed=ops.u32(), npseed=ops.u32(), repeat=False)
                     steps.insert(pos + 1, again)
         except Exception:  # noqa: BLE001
